@@ -25,7 +25,7 @@ CHECK = dict(
          'restarted after PT_INIT; each invocation is compared (return code, side effects, conditions evaluated, loop variables) '
          'with an interpreter of a flat instruction table generated from the same AST; distinct = distinct (return codes, effects) '
          'traces, counted with a hash set',
-    bounds=dict(quick='N = 3 statements (about 50 000 programs), D = 3 departures, gcc',
+    bounds=dict(quick='N = 3 statements (about 60 000 programs; exit_on/fail_on also with a double-typed condition), D = 3 departures, gcc',
                 thorough='N = 4 statements, D = 4 departures, compiled with gcc and with clang'),
     assumptions=['scope of the quantifier: one PT_* blocking macro per source line, none inside a nested switch, PT_CHILD_OK consulted '
                  'before the next blocking point, re-invocation after exit only following PT_INIT',
